@@ -766,6 +766,9 @@ def call_ext(I, f: Ext, args, kw, node=None):
         for b_ in vals:
             val = val * 256 + b_
         return SV(z3.simplify(val), "int")
+    if name == "warnings.warn":
+        I.used_models.add("warnings.warn: returns None (the 'error' warnings filter is not in use)")
+        return None
     if name == "object.__init__":
         return None
     if name in ("typing.cast", "cast"):
